@@ -149,8 +149,9 @@ PROPS = {
         "theorems": ["createPool_shape", "createPool_funds_exact", "createPool_messages", "static_fields_immutable_partial",
                      "static_fields_immutable_counterexample", "static_fields_immutable_of_nodup", "reply_keeps_pools", "ids_unique_preserved",
                      "aligned_preserved",
-                     "MantraDex.C16Sys.pools_static_step", "MantraDex.C16Sys.pools_static_reachable", "MantraDex.C16Sys.lp_denoms_unique_step"],
-        "extra_modules": ["MantraDex.Properties.C16Sys"],
+                     "MantraDex.C16Sys.pools_static_step", "MantraDex.C16Sys.pools_static_reachable", "MantraDex.C16Sys.lp_denoms_unique_step",
+                     "MantraDex.C16Tx.create_pool_tx_effect_partial", "MantraDex.PoolTx.Cx.create_pool_dup_tf", "MantraDex.PoolTx.Cx.create_pool_overflow"],
+        "extra_modules": ["MantraDex.Properties.C16Sys", "MantraDex.Properties.C16Tx"],
         "streams": {"pm_hist": (80, 4000)},
         "what": "an accepted CreatePool has 2 (constant product) / 2-4 distinct assets (stableswap, amp != 0), matching decimals, valid fees (each < 100%, "
                 "total <= 20%), a well-formed fresh identifier (o.<given> / p.<counter+1>), attached exactly the creation + token-factory fees, and "
@@ -158,7 +159,10 @@ PROPS = {
                 "(given unique ids, which every message preserves; without that a proved counterexample exists), keeps identifiers unique and keeps "
                 "reserves aligned with asset_denoms (what F-08 broke). LIFTED THROUGH THE RUNTIME (C16Sys): across every whole transaction of any sender "
                 "(nested calls, replies, rollback, faults) and hence every history, no pool is removed, static fields never change, identifiers and LP denoms "
-                "stay unique (pools_static_step, pools_static_reachable, lp_denoms_unique_step)",
+                "stay unique (pools_static_step, pools_static_reachable, lp_denoms_unique_step). WHOLE CreatePool TRANSACTION (C16Tx.create_pool_tx_effect_partial): exact bank and supply effect - the "
+                "creator pays exactly creation fee + token-factory fees (= the attached funds), the creation fee arrives at the fee collector, the token-factory fee is destroyed, the pool manager "
+                "keeps nothing, nobody else moves; the new pool has the requested fields, a fresh identifier, zero reserves, everything enabled (under the reachable-state facts: supply covers "
+                "balances, token-factory fee denoms distinct, fee sum does not overflow - each shown necessary by a kernel-checked counterexample)",
     },
 
     "C17": {
@@ -205,8 +209,9 @@ PROPS = {
                      "withdraw_value_per_lp_mono", "withdraw_redeemable", "lp_only_minted_by_deposit_burned_by_withdraw", "ss_later_mint_shape",
                      "MantraDex.C02Sys.lp_inv_step", "MantraDex.C02Sys.lp_inv_init_partial", "MantraDex.C02Sys.lp_inv_reachable",
                      "MantraDex.C02Sys.lp_supply_ge_min_reachable", "MantraDex.C02Sys.lp_supply_moves_only_by_deposit_or_withdrawal",
-                     "MantraDex.C02Sys.lp_funded_step", "MantraDex.C03Sys.cp_value_per_lp_step", "MantraDex.C03Sys.cp_value_per_lp_reachable"],
-        "extra_modules": ["MantraDex.Properties.C02Sys", "MantraDex.Properties.C03Sys"],
+                     "MantraDex.C02Sys.lp_funded_step", "MantraDex.C03Sys.cp_value_per_lp_step", "MantraDex.C03Sys.cp_value_per_lp_reachable",
+                     "MantraDex.C16Tx.withdraw_liquidity_tx_effect_partial", "MantraDex.C16Tx.provide_liquidity_tx_effect_partial"],
+        "extra_modules": ["MantraDex.Properties.C02Sys", "MantraDex.Properties.C03Sys", "MantraDex.Properties.C16Tx"],
         "streams": {"mintmath": (3000, 150000), "pm_hist": (80, 4000)},
         "what": "constant product: later mint = min over the two assets of floor(deposit*supply/reserve) <= the proportional contribution; x*y/supply^2 "
                 "never decreases through a deposit or a withdrawal; first mint + locked 1000 = floor(sqrt(d0*d1)); a withdrawal pays floor(reserve*burned/"
@@ -217,7 +222,10 @@ PROPS = {
                 "manager; once funded the pool manager holds the locked minimum for ever, so the LP supply of a funded pool never falls below it (lp_supply_ge_min_reachable, "
                 "lp_funded_step); and for every constant-product pool x*y/supply^2 never decreases through ANY transaction of any kind by anybody (swaps, routes, deposits of "
                 "every shape incl. single-asset and locked, withdrawals), and x*y itself never decreases while the supply is unchanged (cp_value_per_lp_step, "
-                "cp_value_per_lp_reachable)",
+                "cp_value_per_lp_reachable). WHOLE TRANSACTIONS (C16Tx): an accepted WithdrawLiquidity burns exactly the attached LP (supply falls by it), pays the sender "
+                "floor(reserve x burned / supply) of every asset and debits the reserves by exactly that, nothing else moves (withdraw_liquidity_tx_effect_partial); an accepted multi-asset unlocked "
+                "ProvideLiquidity credits exactly the attached coins to the reserves and mints the shares to the receiver plus, only on the first deposit, the locked minimum to the pool manager "
+                "(provide_liquidity_tx_effect_partial)",
         "assumptions": ["stableswap: the link from the code's D to the exact invariant (two units) is C19's accuracy clause: validated by the exact-D "
                         "monitor monSsLp (value per LP never decreases; first mint = D within 2 units inside the supported range), not proved"],
     },
@@ -253,15 +261,17 @@ PROPS = {
         "module": "MantraDex.Properties.C04", "ns": "MantraDex.C04",
         "theorems": ["fee_is_floor_share", "fee_never_more", "computeFees_ok", "net_is_gross_minus_fees", "computeSwap_split",
                      "performSwap_ok", "swapHandler_messages", "routeHops_chain", "routeHops_fee_msgs",
-                     "MantraDex.C04Sys.swap_tx_effect"],
-        "extra_modules": ["MantraDex.Properties.C04Sys"],
+                     "MantraDex.C04Sys.swap_tx_effect", "MantraDex.C12Sys.route_tx_effect"],
+        "extra_modules": ["MantraDex.Properties.C04Sys", "MantraDex.Properties.C12Sys"],
         "streams": {"swapmath": (4000, 200000), "pm_hist": (60, 3000)},
         "what": "each fee = floor(gross*share) (never more); receiver gets gross minus all fees; perform_swap adds the offer in full and removes "
                 "exactly net+protocol+burn from the ask reserve, nothing else changes; a direct swap emits exactly [send net to receiver][burn]"
                 "[send protocol fee to collector] (each only when non-zero); each route hop consumes exactly the previous hop's output; route fee "
                 "messages only burn or pay the fee collector. THROUGH THE RUNTIME (C04Sys.swap_tx_effect): an accepted Swap transaction changes the "
                 "balance of every account and denom by exactly -offer (trader) +offer (pool manager) -(net+protocol+burn) (pool manager) +net "
-                "(receiver) +protocol fee (collector), one additive formula covering every aliasing of the parties; nobody else's balance changes",
+                "(receiver) +protocol fee (collector), one additive formula covering every aliasing of the parties; nobody else's balance changes. ROUTES (C12Sys.route_tx_effect): an "
+                "accepted ExecuteSwapOperations transaction (any number of hops) moves exactly: the offer in, the final output (and nothing of the intermediate hops) to the receiver, and the "
+                "summed effect of the hops' fee messages, each of which is a burn or a payment to the fee collector",
     },
     "C06": {
         "module": "MantraDex.Properties.C06", "ns": "MantraDex.C06",
@@ -372,23 +382,37 @@ PROPS = {
 
     "C12": {
         "module": "MantraDex.Properties.C12", "ns": "MantraDex.C12",
-        "theorems": ["simulation_eq_swap", "performSwap_frame", "route_eq_simulation", "reverse_quote_plus_one_suffices_partial", "reverse_quote_witness"],
+        "theorems": ["simulation_eq_swap", "performSwap_frame", "route_eq_simulation", "reverse_quote_plus_one_suffices_partial", "reverse_quote_witness",
+                     "MantraDex.C12Sys.swap_tx_equals_simulation", "MantraDex.C12Sys.simops_amount_eq_chain", "MantraDex.C12Sys.route_tx_chain",
+                     "MantraDex.C12Sys.route_tx_simulation_agrees", "MantraDex.C12Sys.route_tx_equals_simulation_partial",
+                     "MantraDex.C12Sys.route_tx_equals_simulation_counterexample", "MantraDex.C12Sys.reverse_query_plus_one_suffices_partial"],
+        "extra_modules": ["MantraDex.Properties.C12Sys"],
         "streams": {"swapmath": (4000, 200000), "pm_hist": (60, 3000)},
         "what": "Simulation = Swap on all amounts in any state (both pool types); a swap leaves every other pool untouched; executing a route over "
                 "pairwise distinct pools yields exactly the chained simulation on the initial state; reverse quote + 1 suffices for zero fees "
-                "(general statement false for large asks: F-09 witness proved by kernel evaluation)",
+                "(general statement false for large asks: F-09 witness proved by kernel evaluation). THROUGH THE RUNTIME AND THE QUERY ENTRY POINTS (C12Sys, Model/Queries.lean): an "
+                "accepted Swap transaction moves exactly what the Simulation query answered an instant before (return to the receiver, protocol fee to the collector, burn fee destroyed, "
+                "offer in; one additive formula, swap_tx_equals_simulation); an accepted ExecuteSwapOperations transaction's final output equals the chained Simulation of the pre-state for "
+                "routes over pairwise distinct pools, and equals the SimulateSwapOperations answer whenever that query answers (route_tx_chain, route_tx_simulation_agrees; the query can "
+                "additionally FAIL by a u128 overflow while summing per-denom fee lists that the execution never computes - kernel-checked counterexample with reserves near 2^128 - so the "
+                "unconditional equality is proved for routes whose hops have distinct output denoms: route_tx_equals_simulation_partial); SimulateSwapOperations = chained Simulation; "
+                "ReverseSimulation + 1 suffices through the queries on fee-less constant-product pools",
         "assumptions": ["reverse quote with non-zero fees: known finding F-09 (short by up to ask*1e-18 units); proved only for zero fees"],
     },
     "C13": {
         "module": "MantraDex.Properties.C13", "ns": "MantraDex.C13",
         "theorems": ["default_and_cap", "max_slippage_accept_iff", "belief_accept_iff", "tolerance_monotone_swap", "tolerance_capped",
                      "min_receive_enforced", "deposit_tolerance_above_one_refused", "cp_deposit_accept_iff", "tolerance_monotone_deposit",
-                     "cp_exact_proportion_accepted", "ss_exact_proportion_rejected_witness"],
+                     "cp_exact_proportion_accepted", "ss_exact_proportion_rejected_witness",
+                     "MantraDex.C12Sys.swap_tx_within_slippage", "MantraDex.C12Sys.route_tx_min_receive"],
+        "extra_modules": ["MantraDex.Properties.C12Sys"],
         "streams": {"swapmath": (4000, 200000), "mintmath": (4000, 200000), "pm_hist": (60, 3000)},
         "what": "swap/route: accept iff slippage/(return+slippage) <= min(tolerance or 1%, 50%) (or, with a belief price, iff return >= expected or "
                 "short by <= tolerance); monotone in the tolerance; > 50% capped; routes deliver >= minimum_receive or fail; constant-product deposit: "
                 "accept iff both deposit ratios*(1-tol) <= pool ratios, monotone, exact proportion always accepted, tolerance > 1 refused. "
-                "Stableswap deposit tolerance rejects exact-proportion deposits: F-11 witness (kernel evaluation)",
+                "Stableswap deposit tolerance rejects exact-proportion deposits: F-11 witness (kernel evaluation). THROUGH THE RUNTIME (C12Sys): an accepted Swap transaction "
+                "(any injected fault position) satisfied slippage/(return+slippage) <= min(max_slippage or 1%, 50%) on the pre-trade pool (swap_tx_within_slippage); an accepted route's "
+                "final output is at least minimum_receive (route_tx_min_receive); a rejected transaction changes nothing (step)",
         "assumptions": ["stableswap deposit tolerance: known finding F-11"],
     },
 }
